@@ -73,6 +73,7 @@ Record good (w : mws) : Prop := {
   g_hdr : length (hdr w) = 14%nat;
   g_pos : pos w = maxHdr + lenN (buffered w);
   g_err : werrc w = 0;
+  g_bud : wbudget w = None;
   g_keys : Forall (fun k => length k = 4%nat) (keys w) }.
 
 Lemma next_key_len w : Forall (fun k => length k = 4%nat) (keys w) -> length (next_key w) = 4%nat.
@@ -81,12 +82,12 @@ Proof. unfold next_key, pop_key. destruct (keys w); intros H; [reflexivity|]. in
 Lemma lenN_app a b : lenN (a ++ b) = lenN a + lenN b.
 Proof. rewrite !lenN_spec, app_length. lia. Qed.
 
-Lemma conn_write_ok w t A extra : werrc w = 0 -> is_nil A = false ->
+Lemma conn_write_ok w t A extra : werrc w = 0 -> wbudget w = None -> is_nil A = false ->
   conn_write w t [A; extra] =
   (let w1 := set_out w (if is_nil extra then A :: out w else extra :: A :: out w) in
    (if t =? opClose then set_werrc w1 eCloseSent else w1), eOK).
 Proof.
-  intros He HA. unfold conn_write. rewrite He. cbn [N.eqb negb fold_left]. rewrite HA.
+  intros He Hb HA. unfold conn_write. rewrite He. cbn [N.eqb negb]. rewrite Hb. cbn [fold_left]. rewrite HA.
   destruct (is_nil extra); reflexivity.
 Qed.
 
@@ -115,10 +116,10 @@ Lemma flush_ok c w (final : bool) extra :
     wire w' = wire w ++ enc_frame (srv c) final (cflag w) (ftype w) (next_key w) (buffered w ++ extra) /\
     keys w' = (if srv c then keys w else snd (pop_key (keys w))) /\
     length (hdr w') = 14%nat /\
-    werrc w' = (if ftype w =? opClose then eCloseSent else 0) /\
+    werrc w' = (if ftype w =? opClose then eCloseSent else 0) /\ wbudget w' = None /\
     (final = false -> rbuf w' = [] /\ pos w' = maxHdr /\ ftype w' = opCont /\ cflag w' = false).
 Proof.
-  intros [Hh Hp He Hk] Hop Hctl Hex Hlen.
+  intros [Hh Hp He Hbud Hk] Hop Hctl Hex Hlen.
   unfold flush_frame.
   set (len := pos w - maxHdr + lenN extra).
   assert (Hl : len = lenN (buffered w ++ extra)) by (unfold len; rewrite Hp, lenN_app; lia).
@@ -139,7 +140,7 @@ Proof.
                   if negb (e =? 0) then Ok (w2, e) else if final then Ok (w2, eOK)
                   else Ok (set_ftype (set_buf w2 [] maxHdr) opCont, eOK)) = Ok (w', eOK) /\
         wire w' = wire w ++ vs ++ data ++ extra /\ keys w' = keys w /\ length (hdr w') = 14%nat /\
-        werrc w' = (if ftype w =? opClose then eCloseSent else 0) /\
+        werrc w' = (if ftype w =? opClose then eCloseSent else 0) /\ wbudget w' = None /\
         (final = false -> rbuf w' = [] /\ pos w' = maxHdr /\ ftype w' = opCont /\ cflag w' = false)).
     { intros fp vs Hfp Hnil.
       pose proof (hdr_put (hdr w) fp vs Hh (Nat.eq_le_incl _ _ Hfp)) as Hput.
@@ -152,7 +153,7 @@ Proof.
       assert (Hl1 : length h1 = 14%nat).
       { unfold h1. rewrite !app_length, firstn_length, skipn_length. lia. }
       exists h1. split; [exact Hput|].
-      rewrite Hskip. rewrite conn_write_ok; [|exact He|destruct vs; [discriminate|reflexivity]].
+      rewrite Hskip. rewrite conn_write_ok; [|exact He|exact Hbud|destruct vs; [discriminate|reflexivity]].
       cbn zeta. cbn [ftype set_hdr set_cflag].
       destruct (ftype w =? opClose) eqn:Ecl.
       - assert (final = true) as ->.
@@ -201,7 +202,7 @@ Proof.
                   if negb (e =? 0) then Ok (w2, e) else if final then Ok (w2, eOK)
                   else Ok (set_ftype (set_buf w2 [] maxHdr) opCont, eOK)) = Ok (w', eOK) /\
         wire w' = wire w ++ vs ++ key ++ mask_from key 0 data /\ keys w' = ks /\ length (hdr w') = 14%nat /\
-        werrc w' = (if ftype w =? opClose then eCloseSent else 0) /\
+        werrc w' = (if ftype w =? opClose then eCloseSent else 0) /\ wbudget w' = None /\
         (final = false -> rbuf w' = [] /\ pos w' = maxHdr /\ ftype w' = opCont /\ cflag w' = false)).
     { intros fp vs Hfp Hnil.
       assert (Hfp' : (N.to_nat fp + length vs <= 14)%nat) by lia.
@@ -226,7 +227,7 @@ Proof.
         rewrite skipn_app, firstn_length. rewrite skipn_all2 by (rewrite firstn_length; lia).
         replace (N.to_nat fp - Nat.min (N.to_nat fp) (length (hdr w)))%nat with 0%nat by lia. reflexivity. }
       fold h2.
-      rewrite Hsk. rewrite conn_write_ok; [| exact He | destruct vs; [discriminate|reflexivity]].
+      rewrite Hsk. rewrite conn_write_ok; [| exact He | exact Hbud | destruct vs; [discriminate|reflexivity]].
       cbn zeta. cbn [ftype set_hdr set_cflag set_buf set_keys is_nil].
       change (buffered (set_cflag w false)) with data.
       rewrite (mask_fast_spec key 0 data Hkl).
